@@ -21,7 +21,7 @@ def run (op : String) (a : Json) : Option (Except String Json) :=
       let c ← OpsBind.dStr (OpsBind.field a "clazz")
       let f := OpsBind.field a "feat"
       let flag (k : String) : Bool := (OpsBind.field f k).getBool?.toOption.getD false
-      let ft : FN.Feat := ⟨flag "nillable", flag "tokens", flag "wrapper", flag "sequence", flag "fixed", flag "anyAttrs", flag "inherit", flag "wildcard", flag "union"⟩
+      let ft : FN.Feat := ⟨flag "nillable", flag "tokens", flag "wrapper", flag "sequence", flag "fixed", flag "anyAttrs", flag "inherit", flag "wildcard", flag "union", flag "qname"⟩
       pure (ok (jObj [("ctx", jBool (FN.ctxOK ft Γ)), ("val", jBool (FN.valOKI ft.inherit OpsBind.benv Γ c v))]))
   | _ => none
 
